@@ -81,6 +81,11 @@ def check_un(tr, fn, code):
 
 def mk_struct(kind, n, generic=False):
     fs = [F("f%d" % i if kind == "named" else None, "A" if (generic and i == 0) else "W") for i in range(n)]
+    if generic == "self":
+        # an inline bound that mentions `Self`: in the impls for `&T<A>` it must still mean `T<A>` (implemented for exactly that type below)
+        t = TypeSpec("struct", [Variant(None, kind, fs)], [("A: Bnd<Self>", "W")], shape="%s%d-generic-self-bound" % (kind, n))
+        t.post_items = "impl Bnd<T<W>> for W {}\n"
+        return t
     return TypeSpec("struct", [Variant(None, kind, fs)], [("A", "W")] if generic else None,
                     shape="%s%d%s" % (kind, n, "-generic" if generic else ""))
 
@@ -110,7 +115,7 @@ def build(name, t, what, tr, fn, code, entry, decor="", co=()):
     src = e1.HEADER.format(pid=PID, name=name, desc=desc)
     pre = ["#[derive_ex(%s)]" % la] if entry == "attr" else ["#[derive(Ex)]", "#[derive_ex(%s)]" % la]
     pre = pre[:1] + ["#[derive_ex(%s)]" % c for c in stacked] + pre[1:] if entry == "derive" else pre + ["#[derive_ex(%s)]" % c for c in stacked]
-    src += t.item_text(pre) + "\n\n" + struct_helpers(t) + "\n" + t.mk_fn() + "\n"
+    src += t.item_text(pre) + "\n\n" + getattr(t, "post_items", "") + struct_helpers(t) + "\n" + t.mk_fn() + "\n"
     body = {"bin": check_bin, "assign": check_assign, "un": check_un}[what](tr, fn, code)
     src += "pub fn check<S: Src>(s: &mut S) {\n%s\n}\n\n" % "\n".join(body) + e1.harness(unwind=6)
     return kani_runner.Program(name, src, "%s|%s|%s" % (la, t.shape, entry), desc, nontrivial=True)
@@ -127,6 +132,7 @@ def run(tier):
             for op in ops:
                 cands.append((sh, op, "attr", ""))
         for op in ops:
+            cands.append((("named", 2, "self"), op, "attr", ""))
             cands.append((("named", 2, False), op, "derive", ""))
             for d in DECOR[1:]:
                 cands.append((("named", 2, False), op, "attr", d))
@@ -140,6 +146,8 @@ def run(tier):
             cands.append((sh, ops[19], "attr", ""))
             cands.append((sh, ops[20], "attr", ""))
         cands.append((("named", 2, False), ops[9], "derive", ""))
+        for op in (ops[0], ops[13], ops[20], ops[21]):
+            cands.append((("named", 2, "self"), op, "attr", ""))
         for i, d in enumerate(DECOR[1:]):
             for op in (ops[0], ops[10 + (i % 10)], ops[20 + (i % 2)], ops[rnd.randrange(22)]):
                 cands.append((("named", 2, False), op, "attr", d))
